@@ -1253,7 +1253,7 @@ func init() {
 			"binding block before/after the imports per module: N<=2 with <=3 edges per module, N=3 with <=2 (quick) / <=3 (thorough), N=4 with <=2 edges per module and forms import/from/star-all (thorough only). " +
 			"After main, in the same context: every module is imported again, the missing module is imported, a final statement logs. Compared with the model: the whole log (execution order, probes), per-module execution counts, " +
 			"the exception type ending main, the module store membership and every module's namespace (values; module identities against the store) after main and after the re-imports, the re-import outcomes. Non-trivial: at least one module body executes. " +
-			"part latepath: one context and one module name that two directories provide: every history of <= 4 (thorough 5) steps over {import, from-import (each inside try/except ImportError), sys.path.append(dirA), sys.path[0:0] = [dirB], del sys.path[-1:]} ending in an import, against a model of the search path and the loaded module (a failed import leaves nothing behind; the first directory on the path wins; the body runs once; a loaded module stays loaded).",
+			"part latepath: one context, a module name that two directories provide (a third provides it with a body that raises, a fourth only has a plain directory of that name) and a second module whose name starts with the first one's: every history of <= 5 (thorough 6) steps over {import, from-import, import of the longer-named module (each inside try/except), sys.path.append(dirA), sys.path[0:0] = [dirB | dirF | dirP], del sys.path[-1:]} ending in an import, against a model of the search path and the loaded modules (a failed import leaves nothing behind; the first directory that has the file wins; a body runs once; a loaded module stays loaded and keeps its state whatever happens to modules with similar names).",
 		Run: c19Run,
 		Assumptions: []string{
 			"Python 3.4 semantics as implemented by the model: a module is in the cache before its body runs; a module whose body raised is removed from the cache again (importlib._bootstrap since 3.3), modules it imported stay; `from m import a` of an unbound name raises ImportError; star import binds __all__ or the names not starting with an underscore. The model was cross-checked against CPython 3.11 on > 600000 generated cases (scripts/c19_crosscheck.py) with zero mismatches; the ImportError family (ModuleNotFoundError) counts as ImportError",
